@@ -632,6 +632,7 @@ class Prop(Check):
         "RrelSyntax.C12_roundtrip",
         "RrelSyntax.C12_eval",
         "RrelSyntax.C12_eval_find",
+        "RrelSyntax.C12_parsed_eval_partial",
         "RrelSyntax.C12_core",
         "RrelSyntax.C12_parsed_core",
         "RrelSyntax.C12_roundtrip_seq",
@@ -658,7 +659,11 @@ class Prop(Check):
     MODELLED = ("hand-modelled: rrel.py __repr__ methods (printElem…printExpr, _quote_fixed_name), the Arpeggio grammar "
                 "rrel_standalone with whitespace skipping, the terminals' regular expressions (first match in backtracking order) "
                 "and RRELVisitor (RrelSyntax.parse); tie X: exact printed string and parse result (tree / failure) of every "
-                "string; character classes \\w \\d of non-ASCII characters are taken from Python's re per request; not exhibited: "
+                "string; evaluation: RrelSyntax.evalExpr (object tree -> core calculus RrelSyntax.toCore -> Rrel.find of C11, "
+                "flags m/p) against rrel.find on the sample model for 3 start objects x 8 names, for the expression and for the "
+                "re-parsed one (trees with a '~name' step — navigation into a string attribute — and queries that raise, "
+                "parent(T) with T not in the meta-model, are not compared); "
+                "character classes \\w \\d of non-ASCII characters are taken from Python's re per request; not exhibited: "
                 "Arpeggio's error messages / positions, memoization, Python recursion limits")
     ASSUMPTIONS = [
         "Python's re returns the first match in backtracking priority order for the four terminal patterns (checked by correspondence)",
@@ -1001,7 +1006,16 @@ class Prop(Check):
                 maxsize = max(maxsize, size_of(t["seq"]))
                 flags[t["flags"]] = flags.get(t["flags"], 0) + 1
                 fixed += 1 if fixed_names(t["seq"]) else 0
+        ev_cmp = ev_resolving = 0
+        for c, o, m in zip(cases, obs, model_outs or []):
+            if isinstance(o, dict) and "eval" in o and isinstance(m, dict) and m.get("eval") is not None:
+                t = self.subject(c, o)
+                if t is not None and eval_comparable(t):
+                    ev_cmp += 1
+                    ev_resolving += 1 if any(a not in ("none", "postponed", "fuel") for a in m["eval"]) else 0
         return {
+            "evaluations_compared_with_rrel_find": ev_cmp,
+            "of_these_resolving_some_query": ev_resolving,
             "distribution": dist,
             "well_formed_subjects": wf,
             "texts_accepted": parsed_ok,
